@@ -46,7 +46,7 @@ LEVEL_TEXT = ('Generated-input exploration of an integral identity: for random l
               'heating-profile constants are pinned exactly against the same kernel samples.')
 LEVEL_NOTE = ('Trusts the energy theorem (Tobie et al. 2005 eq. 33-37) and the trapezoid rule error model; bulk dissipation cannot be '
               'exercised because the solver API accepts a real bulk modulus only.')
-CASES = {'quick': 320, 'thorough': 30000}
+CASES = {'quick': 960, 'thorough': 30000}
 SHARDS = {'quick': 16, 'thorough': 16}
 RULE = ('Hypothesis draws 1-4 compressible solid layers (+ optionally one interior static-liquid shell), densities decreasing outward, '
         '|mu| 10^[9.5,11.3] with loss tangent 10^[-4,0], K, l 2..4, N_total 200..400, frequency, integrator; each planet is solved at N, '
@@ -64,7 +64,7 @@ def strategy(tier):
             'dynamic': st.lists(st.booleans(), min_size=n, max_size=n),
             'weights': st.lists(st.floats(0.5, 2.0), min_size=n, max_size=n),
             'logrho_top': st.floats(3.0, 3.6), 'rho_ratios': st.lists(st.floats(1.0, 1.8), min_size=n, max_size=n),
-            'logmu': st.lists(st.floats(9.5, 11.3), min_size=n, max_size=n),
+            'logmu': st.lists(st.floats(8.5, 11.3), min_size=n, max_size=n),
             'logtan': st.lists(st.floats(-4.0, 0.0), min_size=n, max_size=n),
             'logK': st.lists(st.floats(10.5, 12.0), min_size=n, max_size=n),
             'logR': st.floats(5.8, 7.2), 'l': st.integers(2, 4), 'N': st.integers(200, 400), 'logfreq': st.floats(-6.0, -3.5),
@@ -83,7 +83,7 @@ def in_domain(c):
         return (1 <= c['n_solid'] <= 4 and all(len(c[k]) == n for k in ('dynamic', 'weights', 'rho_ratios', 'logmu', 'logtan', 'logK'))
                 and (c['liquid_pos'] == 0 or (c['n_solid'] >= 2 and 1 <= c['liquid_pos'] <= c['n_solid'] - 1))
                 and all(0.5 <= x <= 2 for x in c['weights']) and all(1 <= x <= 1.8 for x in c['rho_ratios'])
-                and all(9.5 <= x <= 11.3 for x in c['logmu']) and all(-4 <= x <= 0 for x in c['logtan'])
+                and all(8.5 <= x <= 11.3 for x in c['logmu']) and all(-4 <= x <= 0 for x in c['logtan'])
                 and all(10.5 <= x <= 12 for x in c['logK']) and 5.8 <= c['logR'] <= 7.2 and 2 <= c['l'] <= 4
                 and 200 <= c['N'] <= 400 and -6 <= c['logfreq'] <= -3.5 and -9 <= c['logrtol'] <= -8
                 and 0.001 <= c['e'] <= 0.2 and 8 <= c['loga'] <= 9.5 and 24 <= c['logM'] <= 28
@@ -96,7 +96,16 @@ def fixed_cases(tier):
     return [{'n_solid': 3, 'liquid_pos': 1, 'dynamic': [False, False, False, True], 'weights': [1.0, 1.0, 1.0, 0.6],
              'logrho_top': 3.4, 'rho_ratios': [1.3, 1.3, 1.2, 1.1], 'logmu': [11.0, 10.0, 10.8, 10.5], 'logtan': [-2.0, -1.0, -0.5, -1.5],
              'logK': [11.5, 11.0, 11.2, 11.0], 'logR': 6.5, 'l': 2, 'N': 240, 'logfreq': -4.5, 'method': 'RK45', 'logrtol': -8.0,
-             'e': 0.05, 'loga': 8.6, 'logM': 27.0, 'warp': [1.0, 0.0, -1.0, 2.0]}]
+             'e': 0.05, 'loga': 8.6, 'logM': 27.0, 'warp': [1.0, 0.0, -1.0, 2.0]},
+            _witness_near_fluid()]
+
+
+def _witness_near_fluid():
+    # KF-C05-near-fluid-layer: homogeneous static planet, R = 1.6e7 m, |mu| = 3e7 Pa (m_2 = 2.5e-4): k is still right to 1e-3 but the
+    # radial functions inside are noise and the integrated kernel is 1e6-1e11 times -Im k
+    return {'n_solid': 1, 'liquid_pos': 0, 'dynamic': [False], 'weights': [1.0], 'logrho_top': 3.6, 'rho_ratios': [1.0],
+            'logmu': [7.5], 'logtan': [-1.0], 'logK': [10.5], 'logR': 7.2, 'l': 2, 'N': 354, 'logfreq': -5.0, 'method': 'DOP853',
+            'logrtol': -8.0, 'e': 0.008, 'loga': 8.0, 'logM': 25.0, 'warp': [0.0]}
 
 
 def required_labels(tier):
@@ -218,7 +227,12 @@ def evaluate(case):
         # to a free-oscillation resonance: k = -1.46, rho = 1.9e6, 5.7e4, 4.3e3): 4N slices do not resolve it; undecided
         return discard('unresolved_still_converging', labels)
     else:
-        c.fail({'clause': 'energy', 'what': 'does_not_vanish_with_refinement'}, detail + '; bound %.3e' % bound)
+        # regime: a solid layer whose |mu| lies below the generated range (10^9.5 Pa) - only reachable through the fixed witness
+        # of KF-C05-near-fluid-layer; generated cases are always 'regular'
+        soft = any(10.0 ** m * math.sqrt(1.0 + 100.0 ** t) < 10.0 ** 8.5 for m, t, L in
+                   zip(case['logmu'], case['logtan'], a['spec']['layers']) if L['type'] == 'solid')
+        c.fail({'clause': 'energy', 'what': 'does_not_vanish_with_refinement', 'regime': 'near_fluid_layer' if soft else 'regular'},
+               detail + '; bound %.3e' % bound)
     if case['l'] == 2:
         from TidalPy.tides.multilayer.heating import calc_radial_tidal_heating
         c.label('heating_profile')
